@@ -1,13 +1,17 @@
 import FiberModel.DriverUtil
 import FiberModel.C14.Spec
+import FiberModel.C14.Known
 /-
 Driver for C14. Case fields (after the id):
   cfg      ext;sttl;maxBytes;expiration;storeHeaders;cacheControl;kg;eg;iv;nx;sy
   methods  hex list ("-" = default)
-  ops      op|op|…   op = grp;dt;method;keyMat;cc;inv;skip;expGen;status;body;ctype;cenc;headers;hdelay;err
-                     (err = 1: the origin handler returns fiber.NewError(status, body))
+  ops      op|op|…   op = grp;dt;method;keyMat;cc;inv;skip;expGen;status;body;ctype;cenc;headers;hdelay;err;f1;f2
+                     (err = 1: the origin handler returns fiber.NewError(status, body); f1 / f2: outcomes of the
+                      storage calls of the first / second critical section, o = ok, e = error, g = garbled entry,
+                      "-" = none; 15 fields = fault-free)
   scheds   "-" or grp:t.t.t/grp:t.t
-  obs      o|o|…     o  = x;status;body;ctype;cenc;headers;ran;held | panic | deadlock | skipped
+  obs      o|o|…     o  = x;status;body;ctype;cenc;headers;ran;held;snap | panic | deadlock | skipped
+                     (snap: `_body` keys of the injected storage with sizes, hexkey=size+…, sorted)
 The model is run with the same `step` function the theorems are about: sequential ops run their
 thread to completion, concurrent groups release threads in the scheduled order (a release runs the
 thread from one yield point – KeyGenerator, [with `sy`: the end of the entry Get inside the first
@@ -74,8 +78,23 @@ def parseHdrs (s : String) : E (List (Bytes × Bytes)) :=
 def hasCRLF (v : Bytes) : Bool := v.any fun c => c == 13 || c == 10
 def trimmed (v : Bytes) : Bool := v.head? != some 32 && v.getLast? != some 32 && v.head? != some 9 && v.getLast? != some 9
 
+def pFaults (s : String) : E (List Fault) :=
+  if s == "-" then pure []
+  else if s.length == 0 || s.length > 16 then dom "faults"
+  else s.toList.mapM fun c =>
+    if c == 'o' then pure Fault.ok else if c == 'e' then pure Fault.err else if c == 'g' then pure Fault.garbled
+    else dom "fault"
+
 def parseOp (d : DCfg) (s : String) : E DOp := do
-  match s.splitOn ";" with
+  let fields := s.splitOn ";"
+  let (fields, f1s, f2s) ← match fields with
+    | [a1, a2, a3, a4, a5, a6, a7, a8, a9, a10, a11, a12, a13, a14, a15, f1, f2] =>
+      pure ([a1, a2, a3, a4, a5, a6, a7, a8, a9, a10, a11, a12, a13, a14, a15], f1, f2)
+    | _ => pure (fields, "-", "-")
+  let f1 ← pFaults f1s
+  let f2 ← pFaults f2s
+  if !d.cfg.ext && (!f1.isEmpty || !f2.isEmpty) then dom "faults need an injected storage"
+  match fields with
   | [grp, dt, me, km, cc, inv, skip, eg, st, body, ct, ce, hs, hd, er] =>
     let method ← pHex me "method"
     if !okMethods.contains method then dom "method"
@@ -105,7 +124,8 @@ def parseOp (d : DCfg) (s : String) : E DOp := do
     if er && (!ct.isEmpty || !ce.isEmpty || !hs.isEmpty || body.isEmpty || status < 400) then dom "error op"
     pure { grp := grp, dt := dt, hdelay := hd,
            req := { method := method, keyMat := keyMat, cc := cc, inv := inv, skip := skip, expGen := expGen,
-                    resp := { status := status, body := body, ctype := ct, cenc := ce, headers := hs }, err := er } }
+                    resp := { status := status, body := body, ctype := ct, cenc := ce, headers := hs }, err := er,
+                    f1 := f1, f2 := f2 } }
   | _ => dom "op fields"
 
 def parseScheds (s : String) : E (List (Nat × List Nat)) :=
@@ -139,22 +159,36 @@ def xStr : XCache → String
 def hdrsField (hs : List (Bytes × Bytes)) : String :=
   if hs.isEmpty then "-" else "+".intercalate ((sortHdrs hs).map fun p => toHexField p.1 ++ "=" ++ toHexField p.2)
 
-def renderOut (o : Out) (ran : Bool) (held : Option Nat) : String :=
+def sortSnap (s : Snap) : Snap := s.mergeSort fun p q => compareOfLessAndEq p.1 q.1 != .gt
+
+def snapField : Option Snap → String
+  | none => "-"
+  | some s => if s.isEmpty then "-" else "+".intercalate ((sortSnap s).map fun p => toHexField p.1 ++ "=" ++ toString p.2)
+
+def renderOut (o : Out) (ran : Bool) (held : Option Nat) (snap : Option Snap) : String :=
   ";".intercalate [xStr o.xcache, toString o.status, toHexField o.body, toHexField o.ctype, toHexField o.cenc,
-    hdrsField o.headers, if ran then "1" else "0", match held with | some h => toString h | none => "-"]
+    hdrsField o.headers, if ran then "1" else "0", match held with | some h => toString h | none => "-", snapField snap]
+
+def parseSnap (s : String) : Option Snap :=
+  if s == "-" then some []
+  else (s.splitOn "+").mapM fun kv =>
+    match kv.splitOn "=" with
+    | [k, v] => do pure (← fromHex k, ← v.toNat?)
+    | _ => none
 
 def parseObs (s : String) : Option Obs :=
   if s == "panic" then some .panic
   else if s == "deadlock" then some .deadlock
   else if s == "skipped" then some .skipped
   else match s.splitOn ";" with
-    | [x, st, body, ct, ce, hs, ran, held] => do
+    | [x, st, body, ct, ce, hs, ran, held, snap] => do
       let xc ← match x with
         | "n" => some XCache.absent | "h" => some .hit | "m" => some .miss | "u" => some .unreachable | _ => none
       let hs ← match parseHdrs hs with | .ok v => some v | .error _ => none
+      let snap ← if held == "-" then some none else (parseSnap snap).map some
       let held ← if held == "-" then some none else held.toNat?.map some
       some (.resp { xcache := xc, status := ← st.toNat?, body := ← fromHex body, ctype := ← fromHex ct,
-                    cenc := ← fromHex ce, headers := hs } (ran == "1") held)
+                    cenc := ← fromHex ce, headers := hs } (ran == "1") held snap)
     | _ => none
 
 /-! ### running the model -/
@@ -193,8 +227,11 @@ structure Sch where
 def hitNext (cfg : Config) (g : G) (t : Nat) : Bool :=
   match g.threads[t]? with
   | some th =>
+    -- the body Get happens (and is a yield point) also when its scheduled outcome is an error: judge the
+    -- first section with that outcome replaced by `ok`
+    let q := { th.req with f1 := [faultAt th.req.f1 0] }
     th.pc == .sec1 &&
-      (match sec1 cfg g.sh g.ts g.uts th.req (mkKey th.req) with
+      (match sec1 cfg g.sh g.ts g.uts q (mkKey th.req) with
        | .hit _ => true
        | _ => false)
   | none => false
@@ -225,7 +262,9 @@ def release (cfg : Config) (sy : Bool) (s : Sch) (t : Nat) : Sch :=
 
 def finished (g : G) (t : Nat) : Bool := pcOf g t == .done || pcOf g t == .panicked
 
-def heldOf (cfg : Config) (g : G) : Option Nat := if cfg.ext then some (g.sh.store.held g.uts) else none
+def heldOf (cfg : Config) (g : G) : Option Nat := if cfg.ext then some (g.sh.bodies.held g.uts) else none
+def snapOf (cfg : Config) (g : G) : Option Snap :=
+  if cfg.ext then some ((g.sh.bodies.filter fun p => !p.2.expired g.uts).map fun p => (p.1, p.2.body.length)) else none
 
 def obsOf (cfg : Config) (g : G) (t : Nat) : String :=
   match g.threads[t]? with
@@ -233,7 +272,7 @@ def obsOf (cfg : Config) (g : G) (t : Nat) : String :=
   | some th =>
     match th.pc, th.out with
     | .panicked, _ => "panic"
-    | .done, some o => renderOut o th.ran (heldOf cfg g)
+    | .done, some o => renderOut o th.ran (heldOf cfg g) (snapOf cfg g)
     | _, _ => "deadlock"
 
 /-- branch tags of one sequential op, from the model states before (after the clock tick) and after it -/
@@ -249,13 +288,17 @@ def opTags (cfg : Config) (pre post : G) (q : Req) : List String :=
    | some sl => if looks && sl.expired pre.uts then ["storage-expired"] else []
    | none => []) ++
   (if pre.sh.store.any (fun p => p.1 != key && (post.sh.store.lookup p.1).isNone) then ["evicted"] else []) ++
-  (if post.sh.heap.live.length > post.sh.store.length then ["ghost-entry"] else []) ++
+  (if (klookup pre.sh.heap.keys key).isSome && post.sh.store.lookup key != pre.sh.store.lookup key &&
+      (post.sh.store.lookup key).isSome then ["replaced-tracked"] else []) ++
+  (if post.sh.heap.live.length != post.sh.store.length && cfg.maxBytes > 0 then ["heap-store-mismatch"] else []) ++
   (if !post.sh.heap.dead.isEmpty then ["index-parked"] else [])
 
 /-- run the history; returns the model's observation per op and the branch tags seen -/
-def runModel (cfg : Config) (sy : Bool) (ops : List DOp) (scheds : List (Nat × List Nat)) : List String × List String := Id.run do
+def runModel (cfg : Config) (sy : Bool) (ops : List DOp) (scheds : List (Nat × List Nat)) :
+    List String × List String × List (String → Bool) := Id.run do
   let mut g := G.init T0 T0 (ops.map (·.req))
   let mut out : Array String := #[]
+  let mut k1 : Array (String → Bool) := #[]
   let mut tags : List String := []
   let mut dead := false
   let arr := ops.toArray
@@ -263,7 +306,7 @@ def runModel (cfg : Config) (sy : Bool) (ops : List DOp) (scheds : List (Nat × 
   while i < arr.size do
     let o := arr[i]!
     if dead then
-      out := out.push "skipped"; i := i + 1
+      out := out.push "skipped"; k1 := k1.push (fun _ => false); i := i + 1
     else
       g := tick g o.dt
       if o.grp == 0 then
@@ -278,10 +321,13 @@ def runModel (cfg : Config) (sy : Bool) (ops : List DOp) (scheds : List (Nat × 
         let s := obsOf cfg g i
         if s == "deadlock" then dead := true
         out := out.push s
+        k1 := k1.push (Known.K1 pre g i)
+        if Known.K1any pre g i && !tags.contains "k1-region" then tags := "k1-region" :: tags
         i := i + 1
       else
         let n := ((arr.toList.drop i).takeWhile (·.grp == o.grp)).length
         let sched := ((scheds.find? (·.1 == o.grp)).map (·.2)).getD []
+        let pre := g
         let mut gq : Sch := { g := g }
         for t in sched do
           gq := release cfg sy gq (i + t)
@@ -294,13 +340,16 @@ def runModel (cfg : Config) (sy : Bool) (ops : List DOp) (scheds : List (Nat × 
           | none => pure ()
         if !gq.atB.isEmpty && !tags.contains "body-get-yield" then tags := "body-get-yield" :: tags
         g := gq.g
-        if g.sh.heap.live.length > g.sh.store.length && !tags.contains "ghost-entry" then tags := "ghost-entry" :: tags
+        if g.sh.heap.live.length != g.sh.store.length && cfg.maxBytes > 0 && !tags.contains "heap-store-mismatch" then
+          tags := "heap-store-mismatch" :: tags
         for t in [0:n] do
           let s := obsOf cfg g (i + t)
           if s == "deadlock" then dead := true
           out := out.push s
+          k1 := k1.push (Known.K1 pre g (i + t))
+          if Known.K1any pre g (i + t) && !tags.contains "k1-region" then tags := "k1-region" :: tags
         i := i + n
-  return (out.toList, tags)
+  return (out.toList, tags, k1.toList)
 
 def mkRecs (ops : List DOp) (obs : List Obs) : List OpRec := Id.run do
   let mut t := T0
@@ -309,7 +358,7 @@ def mkRecs (ops : List DOp) (obs : List Obs) : List OpRec := Id.run do
   let mut idx := 0
   for (o, ob) in ops.zip obs do
     if o.grp == 0 || o.grp != lastGrp then t := t + o.dt
-    let ran := match ob with | .resp _ r _ => r | _ => false
+    let ran := match ob with | .resp _ r _ _ => r | _ => false
     let hd := if ran then o.hdelay else 0      -- the handler's delay only passes when it is invoked
     recs := recs.push { idx := idx, req := o.req, grp := o.grp, t0 := t, t1 := t + hd, obs := ob }
     t := t + hd
@@ -326,14 +375,19 @@ def handleCase (f : List String) : Except String Verdict := do
     let scheds ← parseScheds schedS
     checkGroups ops scheds
     let cfg := d.cfg
-    let (mo, mtags) := runModel cfg d.sy ops scheds
+    let (mo, mtags, k1s) := runModel cfg d.sy ops scheds
     let modelObs := "|".intercalate mo
     let implParts := impl.splitOn "|"
-    let spec : Option String :=
-      if implParts.length != ops.length then some "unparsable-observation"
+    let specAt : Option (Nat × String) :=
+      if implParts.length != ops.length then some (0, "unparsable-observation")
       else match implParts.mapM parseObs with
-        | none => some "unparsable-observation"
-        | some obs => specViolation cfg (mkRecs ops obs)
+        | none => some (0, "unparsable-observation")
+        | some obs => specViolationAt cfg (mkRecs ops obs)
+    let spec := specAt.map (·.2)
+    -- the known finding K1 is claimed for the failing request only when the model places it in K1's region
+    let known : Option String := match specAt with
+      | some (i, c) => if (k1s.getD i fun _ => false) c then some "K1" else none
+      | none => none
     -- branch tags from the model's run
     let has (p : String → Bool) := mo.any p
     let tags :=
@@ -345,9 +399,10 @@ def handleCase (f : List String) : Except String Verdict := do
       (if has (·.startsWith "n;") then ["bypass"] else []) ++
       (if cfg.maxBytes > 0 then ["maxbytes"] else []) ++
       (if d.sy then ["storage-yield"] else []) ++
+      (if ops.any (fun o => !o.req.f1.isEmpty || !o.req.f2.isEmpty) then ["storage-faults"] else []) ++
       mtags ++
       (if has (·.startsWith "h;") && has (·.startsWith "m;") then ["nt"] else [])
-    pure { id := id, modelObs := modelObs, implObs := impl, spec := spec, tags := tags }
+    pure { id := id, modelObs := modelObs, implObs := impl, spec := spec, known := known, tags := tags }
   | _ => dom s!"expected 6 fields, got {f.length}"
 
 def main : IO Unit := run handleCase
